@@ -36,11 +36,14 @@ def _set_order_exception(q: str, node: ast.AST) -> Optional[str]:
 
 
 def _call_exception(q: str, c: ast.Call, fn: ast.FunctionDef) -> Optional[str]:
-    if q == "annotate.SpanUpdater.update" and isinstance(c.func, ast.Name):
-        d = [s for s in stmts_local(fn.body) if isinstance(s, ast.Assign) and norm(s.targets[0]) == c.func.id]
-        if len(d) == 1 and isinstance(d[0].value, ast.Subscript) and norm(d[0].value.value).endswith(".updaters"):
-            return ("elements of self.updaters are functools.partial objects over the two nested pure helpers shift_offset/replace_offset "
-                    "(checked: no writes)")
+    if q == "annotate.SpanUpdater.update":
+        tgt = c.func
+        if isinstance(tgt, ast.Name):
+            d = [s for s in stmts_local(fn.body) if isinstance(s, ast.Assign) and norm(s.targets[0]) == tgt.id]
+            tgt = d[0].value if len(d) == 1 else None
+        if isinstance(tgt, ast.Subscript) and norm(tgt.value).endswith(".updaters"):
+            return ("elements of self.updaters are functools.partial objects over the two pure offset helpers "
+                    "(checked: every element stored is partial(<pure callable>), see .../updater:*)")
     return None
 
 
@@ -135,6 +138,17 @@ def run(ctx: Ctx):
     n_upd = 0
     if init is not None:
         am = repo.mod("annotate")
+        # names of the updaters list: self.updaters and its local alias
+        ups = {"self.updaters"}
+        for x in stmts_local(init.body):
+            if isinstance(x, ast.Assign) and any(norm(t) == "self.updaters" for t in x.targets):
+                ups |= {norm(t) for t in x.targets}
+        for c in walk_local(init):
+            if isinstance(c, ast.Call) and isinstance(c.func, ast.Attribute) and norm(c.func.value) in ups and c.func.attr in ("append", "insert", "extend", "__setitem__"):
+                el = c.args[-1] if c.args else None
+                okp = c.func.attr == "append" and isinstance(el, ast.Call) and dotted(el.func) in ("partial", "functools.partial")
+                ctx.ob("R-C15-3", f"annotate.SpanUpdater.__init__/updaters-element:{c.lineno - init.lineno}", okp,
+                       f"every element stored in the updaters list is partial(<callable>): `{norm(c)[:60]}`", node=c, mod=am, nontrivial=False)
         for c in walk_local(init):
             if isinstance(c, ast.Call) and dotted(c.func) in ("partial", "functools.partial") and c.args:
                 f0 = c.args[0]
